@@ -98,6 +98,9 @@ structure Scn where
   name : String := ""
   provs : List (Nat × List Nat) := []
   entries : List (Src × Bool) := []      -- reversed while reading
+  byName : List Bool := []               -- parallel to `entries`: given by name (text) / by object reference
+  lprovs : List (Nat × Nat × List Nat) := []   -- (late pass, name, slots)
+  npasses : Nat := 0
   out : Array String := #[]
   constructed : Option Verdict := none
 deriving Inhabited
@@ -106,6 +109,14 @@ def Scn.prov (s : Scn) : Nat → List Nat := fun n =>
   match s.provs.find? (·.1 == n) with
   | some (_, l) => l
   | none => []
+
+def Scn.lprov (s : Scn) (k : Nat) : Nat → List Nat := fun n =>
+  match s.lprovs.find? (fun x => x.1 == k && x.2.1 == n) with
+  | some (_, _, l) => l
+  | none => []
+
+def Scn.entries3 (s : Scn) : List (Src × Bool × Bool) :=
+  (s.entries.reverse.zip s.byName.reverse).map fun (en, b) => (en.1, en.2, b)
 
 def natList (s : String) : List Nat :=
   if s == "-" || s == "" then [] else (s.splitOn ",").filterMap String.toNat?
@@ -129,7 +140,7 @@ def Scn.ensureConstructed (s : Scn) : Scn :=
   match s.constructed with
   | some _ => s
   | none =>
-    let v := construct s.prov s.entries.reverse
+    let v := constructPasses s.prov ((List.range s.npasses).map s.lprov) s.entries3
     let line := match v with
       | .ok _ => "construct ok"
       | .invalidDefinition => "construct InvalidDefinition"
@@ -150,10 +161,17 @@ def Scn.step (s : Scn) (toks : List String) : Scn :=
     let cs := unhex ((rest.headD "").toList)
     { s with out := s.out.push ("prep " ++ prepS (prepare true cs) ++ " asis " ++ prepS (prepare false cs)) }
   | ["prov", n, l] => { s with provs := (n.toNat?.getD 0, natList l) :: s.provs }
-  | "entry" :: g :: "X" :: _ => { s with entries := (.unparsable, g == "c") :: s.entries }
+  | ["lprov", k, n, l] =>
+    let k := k.toNat?.getD 0
+    { s with lprovs := (k, n.toNat?.getD 0, natList l) :: s.lprovs, npasses := max s.npasses (k + 1) }
+  | "entry" :: g :: "X" :: _ => { s with entries := (.unparsable, g == "c") :: s.entries, byName := true :: s.byName }
   | "entry" :: g :: "P" :: tree =>
     match parseE tree with
-    | some (e, _) => { s with entries := (.parsed e, g == "c") :: s.entries }
+    | some (e, _) => { s with entries := (.parsed e, g == "c") :: s.entries, byName := true :: s.byName }
+    | none => { s with out := s.out.push "error bad-tree" }
+  | "entry" :: g :: "O" :: tree =>      -- given as an object (function, property): not resolved again by `add_listener`
+    match parseE tree with
+    | some (e, _) => { s with entries := (.parsed e, g == "c") :: s.entries, byName := false :: s.byName }
     | none => { s with out := s.out.push "error bad-tree" }
   | "rho" :: rest =>
     let s := s.ensureConstructed
@@ -163,9 +181,20 @@ def Scn.step (s : Scn) (toks : List String) : Scn :=
       let r := allLib pySem ρ gs
       let src := sourceGuards s.entries.reverse
       let ρ' := envOf s.prov ρ
-      let p := allPy pySem ρ' src
-      let pyReads := p.reads.flatMap fun n => provReads ρ (s.prov n)
-      let line := s!"send {verdictS r.val} lib={readsLib r.reads} py={readsPy pyReads} spec={verdictS p.val}"
+      let p0 := allPy pySem ρ' src
+      -- specification with late attachment passes: the entries given by name whose names a pass provides must hold
+      -- in that pass's environment too, pass after pass (evaluation stops at the first guard that does not hold)
+      let p : Option Bool × List Nat := (List.range s.npasses).foldl (fun (acc : Option Bool × List Nat) k =>
+          if acc.1 != some true then acc else
+            let pv := s.lprov k
+            let srck : List Guard := s.entries3.filterMap fun en =>
+              match en.1, en.2.2 with
+              | .parsed e, true => if (unknowns pv e).isEmpty then some ⟨e, en.2.1⟩ else none
+              | _, _ => none
+            let pk := allPy pySem (envOf pv ρ) srck
+            (pk.val, acc.2 ++ pk.reads.flatMap fun n => provReads ρ (pv n)))
+        (p0.val, p0.reads.flatMap fun n => provReads ρ (s.prov n))
+      let line := s!"send {verdictS r.val} lib={readsLib r.reads} py={readsPy p.2} spec={verdictS p.1}"
       { s with out := s.out.push line }
     | _ => { s with out := s.out.push "send dead" }
   | _ => s
